@@ -91,6 +91,7 @@ def make_ob(hf, path, ln, name, pending, inst=None):
     ob.file = path
     ob.line = ln
     ob.crate = hf.crate
+    ob.hf = hf
     ob.tier = (pending.get("tier") or ["quick"])[-1]
     ob.functions = [x.strip() for v in pending.get("functions", []) for x in v.split(",") if x.strip()]
     ob.bound = " ".join(pending.get("bound", []))
@@ -306,20 +307,24 @@ def kani_env():
     return env
 
 
+def extra_args(ob):
+    """file-level `//@ cargo_args:` (e.g. --features pool) of the harness file the obligation lives in"""
+    return list(getattr(ob, "hf", None).cargo_args or []) if getattr(ob, "hf", None) else []
+
+
 def run_group(prop, ov, crate, obs, tier, jobs, group_tag, results, live_pids):
     """One cargo-kani invocation for all harnesses of one crate. Fills results[ob.name]."""
     base = os.path.join(WORK, prop)
-    tdir = os.path.join(base, "t-" + crate)
-    outjson = os.path.join(base, f"out-{crate}-{group_tag}.json")
-    logf = os.path.join(base, f"log-{crate}-{group_tag}.txt")
+    xargs = extra_args(obs[0])
+    xtag = ("-" + re.sub(r"[^A-Za-z0-9]+", "_", " ".join(xargs)).strip("_")) if xargs else ""
+    tdir = os.path.join(base, "t-" + crate + xtag)
+    outjson = os.path.join(base, f"out-{crate}{xtag}-{group_tag}.json")
+    logf = os.path.join(base, f"log-{crate}{xtag}-{group_tag}.txt")
     if os.path.exists(outjson):
         os.remove(outjson)
     tmo = max((ob.timeout or DEFAULT_TIMEOUT[tier]) for ob in obs)
     args = ["cargo", "kani", "-p", crate, "--lib"]
-    cargs = None
-    for ob in obs:
-        pass
-    args += CRATE_ARGS.get(crate, [])
+    args += CRATE_ARGS.get(crate, []) + xargs
     args += ["-Z", "stubbing", "-Z", "unstable-options", "--harness-timeout", f"{tmo}s",
              "--target-dir", tdir, "--export-json", outjson, "--output-format", "terse"]
     if jobs > 1:
@@ -475,7 +480,7 @@ def replay(prop, hfs, ob, res, ov_unused):
     info = {"obligation": ob.name, "reason": res["reason"], "failed_checks": res["failed_checks"], "reproduced": False}
     ov = make_overlay(prop + "-replay", hfs)
     tdir = os.path.join(WORK, prop + "-replay", "t-" + ob.crate)
-    args = ["cargo", "kani", "-p", ob.crate, "--lib"] + CRATE_ARGS.get(ob.crate, []) + [
+    args = ["cargo", "kani", "-p", ob.crate, "--lib"] + CRATE_ARGS.get(ob.crate, []) + extra_args(ob) + [
         "-Z", "stubbing", "-Z", "unstable-options", "-Z", "concrete-playback", "--concrete-playback=print",
         "--harness-timeout", f"{(ob.timeout or 600) * 2}s", "--target-dir", tdir, "--harness", ob.name]
     p = subprocess.run(args, cwd=ov, env=kani_env(), capture_output=True, text=True)
@@ -508,7 +513,7 @@ def replay(prop, hfs, ob, res, ov_unused):
     info["replay_tests"] = sorted(seen)[:8]
     info["concrete_values"] = re.findall(r"//\s*(.+)\n\s*vec!\[([^\]]*)\]", test_src)[:40]
     ov = make_overlay(prop + "-replay", hfs, replay_override={ob.file: rfile})
-    args = ["cargo", "kani", "playback", "-Z", "concrete-playback", "-p", ob.crate, "--lib"] + CRATE_ARGS.get(ob.crate, []) + ["--", tname or "kani_concrete_playback"]
+    args = ["cargo", "kani", "playback", "-Z", "concrete-playback", "-p", ob.crate, "--lib"] + CRATE_ARGS.get(ob.crate, []) + extra_args(ob) + ["--", tname or "kani_concrete_playback"]
     env = kani_env()
     env["CARGO_TARGET_DIR"] = os.path.join(WORK, prop + "-replay", "t-playback")
     p = subprocess.run(args, cwd=ov, env=env, capture_output=True, text=True)
@@ -608,13 +613,13 @@ def main():
         return finish(prop, a, seed, t_start, sel, results, [], [str(e)], [], 2)
     groups = {}
     for ob in sel:
-        groups.setdefault(ob.crate, []).append(ob)
+        groups.setdefault((ob.crate, tuple(extra_args(ob))), []).append(ob)
     live = set()
     wd = Watchdog(lambda: list(live))
     wd.start()
     threads = []
     per = max(1, a.jobs // max(1, len(groups)))
-    for crate, obs in groups.items():
+    for (crate, _xa), obs in groups.items():
         # slow obligations first so the tail is short
         obs.sort(key=lambda o: -(o.timeout or 0))
         t = threading.Thread(target=run_group, args=(prop, ov, crate, obs, a.tier, min(per, len(obs)), a.tier, results, live))
